@@ -1,4 +1,4 @@
-(* C09, list level, general values: ParseAllContactValues on value *( [LWS] "," value ) [blanks] end-of-line where every value is any
+(* C09, list level, general values: ParseAllContactValues on [LWS] value *( [LWS] "," [LWS] value ) [blanks] end-of-line where every value is any
    text the value-level theorems cover (display name, bracketed URI, the general parameter part): every value is counted (also those
    that do not fit the array), value j is what the value parser reports for text j at its own offset, the header-value span runs
    from the first byte of the first value to the last byte of the last one.  A comma inside a quoted string does not split. *)
@@ -9,8 +9,9 @@ From RecordUpdate Require Import RecordUpdate.
 Notation itc := (fb_iter HdrContact).
 (* a value text the value parser is known to handle: ended by [LWS] "," it asks for more values, ended by blanks and the end of the
    line it is the last one; either way the value reported is gv_v at its offset and spans exactly the text *)
-Record gval := mkgval { gv_x : list byte; gv_g : list byte; gv_v : N -> pfrom }.
+Record gval := mkgval { gv_l : list byte; gv_x : list byte; gv_g : list byte; gv_v : N -> pfrom }.
 Definition gv_ok (g : gval) : Prop :=
+  gp (gv_l g) /\ (exists c X', gv_x g = c :: X' /\ is_ws c = false) /\
   gp (gv_g g) /\ gv_x g <> [] /\
   (forall (pre y : list byte) i, i = nnat (length pre) ->
      run itc pre (gv_x g ++ gv_g g ++ (44 : byte) :: y) i 0 pfrom0 = Done (i + nnat (length (gv_x g)) + nnat (length (gv_g g)) + 1) EMoreValues (gv_v g i)) /\
@@ -18,47 +19,66 @@ Definition gv_ok (g : gval) : Prop :=
      run itc pre (gv_x g ++ sp ++ CR :: LF :: x :: tail) i 0 pfrom0 = Done (i + nnat (length (gv_x g)) + nnat (length sp) + 2) EOk (gv_v g i)) /\
   (forall i, fb_parsed (gv_v g i) = true /\ fb_v (gv_v g i) = mkpf i (nnat (length (gv_x g)))).
 
-Definition gv_step (g : gval) : list byte := gv_x g ++ gv_g g ++ [(44 : byte)].
-Lemma ctg_iter_comma (pre y : list byte) i g l : i = nnat (length pre) -> gv_ok g -> CtI i l ->
-  ct_iter pre (gv_step g ++ y) i l = Next (length (gv_step g)) (ct_addv l (gv_v g i) true).
+Definition gv_step (g : gval) : list byte := gv_l g ++ gv_x g ++ gv_g g ++ [(44 : byte)].
+Definition gv_at (i : N) (g : gval) : N := i + nnat (length (gv_l g)).
+(* white space in front of a value is skipped *)
+Lemma init_gap (pre l : list byte) c (z : list byte) i : gp l -> is_ws c = false ->
+  run itc pre (l ++ c :: z) i 0 pfrom0 = run itc (rev l ++ pre) (c :: z) (i + nnat (length l)) 0 pfrom0.
 Proof.
-  intros Hi (Hg & Hne & Hc & _ & Hv) (Hwf & Hsel & Hlh). destruct (Hv i) as [Hp Hfv].
-  unfold gv_step. rewrite <- !app_assoc. cbn [app]. rewrite ct_iter_def, Hsel, (Hc pre y i Hi), ct_post_eq. cbv zeta.
-  unfold ct_addv. destruct (ct_store_proj l (gv_v g i)) as (_ & _ & _ & _ & S5 & _).
-  destruct (ct_count_some (ct_store l (gv_v g i)) (gv_v g i) ltac:(rewrite S5, Hfv; unfold pf_end in *; cbn [po pl]; lia)) as (c6 & E6 & _).
-  rewrite E6. f_equal. rewrite !app_length. cbn [length]. unfold nnat. lia.
+  intros [->|Hw] Hc; [cbn [app rev length]; f_equal; unfold nnat; lia|].
+  apply (g_lws HdrContact pre l c z i pfrom0 pfrom0); [|exact Hw|exact Hc].
+  intros c0 r Hc0. apply ws_class in Hc0. unfold fb_iter. cbn [fb_state pfrom0]. unfold fb_step, fb_gA. rewrite Hc0. reflexivity.
+Qed.
+Lemma gv_lead g (pre z : list byte) i : gv_ok g -> i = nnat (length pre) ->
+  run itc pre (gv_l g ++ gv_x g ++ z) i 0 pfrom0 = run itc (rev (gv_l g) ++ pre) (gv_x g ++ z) (gv_at i g) 0 pfrom0 /\
+  gv_at i g = nnat (length (rev (gv_l g) ++ pre)).
+Proof.
+  intros (Hl & (c & X' & Ex & Hc) & _) Hi. split; [|unfold gv_at; rewrite app_length, rev_length, Hi; unfold nnat; lia].
+  rewrite Ex. cbn [app]. apply init_gap; assumption.
+Qed.
+Lemma ctg_iter_comma (pre y : list byte) i g l : i = nnat (length pre) -> gv_ok g -> CtI i l ->
+  ct_iter pre (gv_step g ++ y) i l = Next (length (gv_step g)) (ct_addv l (gv_v g (gv_at i g)) true).
+Proof.
+  intros Hi Hok (Hwf & Hsel & Hlh). destruct (gv_lead g pre (gv_g g ++ (44 : byte) :: y) i Hok Hi) as [El Ea].
+  destruct Hok as (_ & _ & Hg & Hne & Hc & _ & Hv). destruct (Hv (gv_at i g)) as [Hp Hfv].
+  unfold gv_step. rewrite <- !app_assoc. cbn [app]. rewrite ct_iter_def, Hsel, El, (Hc _ y _ Ea), ct_post_eq. cbv zeta.
+  unfold ct_addv. destruct (ct_store_proj l (gv_v g (gv_at i g))) as (_ & _ & _ & _ & S5 & _).
+  destruct (ct_count_some (ct_store l (gv_v g (gv_at i g))) (gv_v g (gv_at i g)) ltac:(rewrite S5, Hfv; unfold pf_end, gv_at in *; cbn [po pl]; lia)) as (c6 & E6 & _).
+  rewrite E6. f_equal. rewrite !app_length. cbn [length]. unfold gv_at, nnat. lia.
 Qed.
 Lemma ctg_iter_eol (pre sp : list byte) x tail i g l : i = nnat (length pre) -> gv_ok g -> spaces sp -> is_sp x = false -> CtI i l ->
-  ct_iter pre (gv_x g ++ sp ++ CR :: LF :: x :: tail) i l = Ret (i + nnat (length (gv_x g)) + nnat (length sp) + 2) EOk (ct_addv l (gv_v g i) false).
+  ct_iter pre (gv_l g ++ gv_x g ++ sp ++ CR :: LF :: x :: tail) i l
+  = Ret (gv_at i g + nnat (length (gv_x g)) + nnat (length sp) + 2) EOk (ct_addv l (gv_v g (gv_at i g)) false).
 Proof.
-  intros Hi (Hg & Hne & _ & He & Hv) Hsp Hx (Hwf & Hsel & Hlh). destruct (Hv i) as [Hp Hfv].
-  rewrite ct_iter_def, Hsel, (He pre sp x tail i Hi Hsp Hx), ct_post_eq. cbv zeta.
-  unfold ct_addv. destruct (ct_store_proj l (gv_v g i)) as (_ & _ & _ & _ & S5 & _).
-  destruct (ct_count_some (ct_store l (gv_v g i)) (gv_v g i) ltac:(rewrite S5, Hfv; unfold pf_end in *; cbn [po pl]; lia)) as (c6 & E6 & _).
+  intros Hi Hok Hsp Hx (Hwf & Hsel & Hlh). destruct (gv_lead g pre (sp ++ CR :: LF :: x :: tail) i Hok Hi) as [El Ea].
+  destruct Hok as (_ & _ & Hg & Hne & _ & He & Hv). destruct (Hv (gv_at i g)) as [Hp Hfv].
+  rewrite ct_iter_def, Hsel, El, (He _ sp x tail _ Ea Hsp Hx), ct_post_eq. cbv zeta.
+  unfold ct_addv. destruct (ct_store_proj l (gv_v g (gv_at i g))) as (_ & _ & _ & _ & S5 & _).
+  destruct (ct_count_some (ct_store l (gv_v g (gv_at i g))) (gv_v g (gv_at i g)) ltac:(rewrite S5, Hfv; unfold pf_end, gv_at in *; cbn [po pl]; lia)) as (c6 & E6 & _).
   rewrite E6. reflexivity.
 Qed.
 
 (* the list text, the values at their offsets, the end of the last value *)
 Fixpoint gl_text (gs : list gval) (sp : list byte) : list byte :=
-  match gs with [] => [] | [g] => gv_x g ++ sp | g :: gs' => gv_step g ++ gl_text gs' sp end.
+  match gs with [] => [] | [g] => gv_l g ++ gv_x g ++ sp | g :: gs' => gv_step g ++ gl_text gs' sp end.
 Fixpoint gl_vals (i : N) (gs : list gval) : list pfrom :=
-  match gs with [] => [] | [g] => [gv_v g i] | g :: gs' => gv_v g i :: gl_vals (i + nnat (length (gv_step g))) gs' end.
+  match gs with [] => [] | [g] => [gv_v g (gv_at i g)] | g :: gs' => gv_v g (gv_at i g) :: gl_vals (i + nnat (length (gv_step g))) gs' end.
 Fixpoint gl_end (i : N) (gs : list gval) : N :=
-  match gs with [] => i | [g] => i + nnat (length (gv_x g)) | g :: gs' => gl_end (i + nnat (length (gv_step g))) gs' end.
+  match gs with [] => i | [g] => gv_at i g + nnat (length (gv_x g)) | g :: gs' => gl_end (i + nnat (length (gv_step g))) gs' end.
 Lemma gl_text_cons2 g g2 gs sp : gl_text (g :: g2 :: gs) sp = gv_step g ++ gl_text (g2 :: gs) sp. Proof. reflexivity. Qed.
-Lemma gl_vals_cons2 i g g2 gs : gl_vals i (g :: g2 :: gs) = gv_v g i :: gl_vals (i + nnat (length (gv_step g))) (g2 :: gs). Proof. reflexivity. Qed.
+Lemma gl_vals_cons2 i g g2 gs : gl_vals i (g :: g2 :: gs) = gv_v g (gv_at i g) :: gl_vals (i + nnat (length (gv_step g))) (g2 :: gs). Proof. reflexivity. Qed.
 Lemma gl_end_cons2 i g g2 gs : gl_end i (g :: g2 :: gs) = gl_end (i + nnat (length (gv_step g))) (g2 :: gs). Proof. reflexivity. Qed.
 Lemma gl_vals_cons i g gs : exists v vs, gl_vals i (g :: gs) = v :: vs.
 Proof. destruct gs; cbn [gl_vals]; eexists; eexists; reflexivity. Qed.
 Lemma gv_step_ne g : gv_step g <> [].
-Proof. unfold gv_step. destruct (gv_x g); [destruct (gv_g g)|]; discriminate. Qed.
+Proof. unfold gv_step. destruct (gv_l g); [destruct (gv_x g); [destruct (gv_g g)|]|]; discriminate. Qed.
 
-Lemma addv_CtI i l g j : gv_ok g -> CtI i l -> i + nnat (length (gv_x g)) <= j -> CtI j (ct_addv l (gv_v g i) true).
+Lemma addv_CtI i l g j : gv_ok g -> CtI i l -> gv_at i g + nnat (length (gv_x g)) <= j -> CtI j (ct_addv l (gv_v g (gv_at i g)) true).
 Proof.
-  intros (_ & _ & _ & _ & Hv) Hl Hj. destruct (Hv i) as [Hp Hfv]. destruct Hl as (W & Sl & Lh).
-  destruct (ct_addv_facts i l (gv_v g i) true (conj W (conj Sl Lh)) ltac:(rewrite Hfv; unfold pf_end in *; cbn [po pl]; lia) Hp) as (F1 & F2 & F3 & F4 & F5 & F6).
+  intros (_ & _ & _ & _ & _ & _ & Hv) Hl Hj. destruct (Hv (gv_at i g)) as [Hp Hfv]. destruct Hl as (W & Sl & Lh).
+  destruct (ct_addv_facts i l (gv_v g (gv_at i g)) true (conj W (conj Sl Lh)) ltac:(rewrite Hfv; unfold pf_end, gv_at in *; cbn [po pl]; lia) Hp) as (F1 & F2 & F3 & F4 & F5 & F6).
   split; [exact F3|]. split; [apply F4; reflexivity|]. rewrite F5, Hfv.
-  destruct ((ct_n l =? 0) || pf_empty (ct_lasthval l)); unfold pf_end in *; cbn [po pl]; lia.
+  destruct ((ct_n l =? 0) || pf_empty (ct_lasthval l)); unfold pf_end, gv_at in *; cbn [po pl]; lia.
 Qed.
 
 Lemma glist_run gs : forall (pre sp : list byte) i l x tail, gs <> [] -> Forall gv_ok gs -> spaces sp -> is_sp x = false -> i = nnat (length pre) -> CtI i l ->
@@ -67,36 +87,39 @@ Proof.
   induction gs as [|g gs IH]; intros pre sp i l x tail Hne Hall Hsp Hx Hi Hl; [congruence|].
   pose proof (Forall_inv Hall) as Hg. pose proof (Forall_inv_tail Hall) as Hall'.
   destruct gs as [|g2 gs].
-  - cbn [gl_text gl_vals gl_end ct_addvs]. rewrite <- app_assoc. rewrite run_after.
+  - cbn [gl_text gl_vals gl_end ct_addvs]. rewrite <- !app_assoc. rewrite run_after.
     rewrite (ctg_iter_eol pre sp x tail i g l Hi Hg Hsp Hx Hl). reflexivity.
   - rewrite gl_text_cons2, gl_vals_cons2, gl_end_cons2.
-    assert (Eadd : ct_addvs l (gv_v g i :: gl_vals (i + nnat (length (gv_step g))) (g2 :: gs))
-                   = ct_addvs (ct_addv l (gv_v g i) true) (gl_vals (i + nnat (length (gv_step g))) (g2 :: gs))).
+    assert (Eadd : ct_addvs l (gv_v g (gv_at i g) :: gl_vals (i + nnat (length (gv_step g))) (g2 :: gs))
+                   = ct_addvs (ct_addv l (gv_v g (gv_at i g)) true) (gl_vals (i + nnat (length (gv_step g))) (g2 :: gs))).
     { destruct (gl_vals_cons (i + nnat (length (gv_step g))) g2 gs) as (v2 & vs2 & Ev). rewrite Ev. reflexivity. }
     rewrite Eadd. clear Eadd. rewrite <- app_assoc.
     rewrite (run_step ct_iter pre (gv_step g) _ i l _ (gv_step_ne g) (ctg_iter_comma pre _ i g l Hi Hg Hl)).
     apply IH; auto; [discriminate|rewrite app_length, rev_length, Hi; unfold nnat; lia|].
-    apply (addv_CtI i l g _ Hg Hl). unfold gv_step. rewrite !app_length. unfold nnat. lia.
+    apply (addv_CtI i l g _ Hg Hl). unfold gv_step, gv_at. rewrite !app_length. unfold nnat. lia.
 Qed.
 
 (* facts about the list after the values *)
+Definition gl_start (i : N) (gs : list gval) : N := match gs with [] => i | g :: _ => gv_at i g end.
 Lemma gaddvs_facts gs : forall i l, gs <> [] -> Forall gv_ok gs -> CtI i l ->
   let C := ct_addvs l (gl_vals i gs) in
   ct_n C = ct_n l + nnat (length gs) /\ length (ct_vals C) = length (ct_vals l) /\
   (forall j, (j < N.to_nat (ct_n l))%nat -> nth j (ct_vals C) pfrom0 = nth j (ct_vals l) pfrom0) /\
   (forall j, (j < length gs)%nat -> (N.to_nat (ct_n l) + j < length (ct_vals l))%nat ->
      nth (N.to_nat (ct_n l) + j) (ct_vals C) pfrom0 = nth j (gl_vals i gs) pfrom0) /\
-  ct_lasthval C = (if (ct_n l =? 0) || pf_empty (ct_lasthval l) then mkpf i (gl_end i gs - i)
-                   else mkpf (po (ct_lasthval l)) (gl_end i gs - po (ct_lasthval l))) /\ i < gl_end i gs.
+  ct_lasthval C = (if (ct_n l =? 0) || pf_empty (ct_lasthval l) then mkpf (gl_start i gs) (gl_end i gs - gl_start i gs)
+                   else mkpf (po (ct_lasthval l)) (gl_end i gs - po (ct_lasthval l))) /\ gl_start i gs < gl_end i gs.
 Proof.
   induction gs as [|g gs IH]; intros i l Hne Hall Hl; [congruence|].
   pose proof (Forall_inv Hall) as Hg. pose proof (Forall_inv_tail Hall) as Hall'.
-  destruct Hg as (Hgg & Hxne & Hc & He & Hv). destruct (Hv i) as [Hp Hfv].
+  pose proof Hg as Hg0. destruct Hg as (Hgl & Hfirst & Hgg & Hxne & Hc & He & Hv). destruct (Hv (gv_at i g)) as [Hp Hfv].
   assert (Hxl : 0 < nnat (length (gv_x g))) by (destruct (gv_x g); [congruence|cbn [length]; unfold nnat; lia]).
-  assert (Hb : pf_end (ct_lasthval l) <= pf_end (fb_v (gv_v g i))) by (destruct Hl as (_ & _ & Hx); rewrite Hfv; unfold pf_end in *; cbn [po pl]; lia).
+  assert (Hia : i <= gv_at i g) by (unfold gv_at; lia).
+  assert (Hb : pf_end (ct_lasthval l) <= pf_end (fb_v (gv_v g (gv_at i g)))) by (destruct Hl as (_ & _ & Hx); rewrite Hfv; unfold pf_end in *; cbn [po pl]; lia).
+  cbn [gl_start].
   destruct gs as [|g2 gs].
   - cbn [gl_vals ct_addvs gl_end length]. cbv zeta.
-    destruct (ct_addv_facts i l (gv_v g i) false Hl Hb Hp) as (F1 & F2 & F3 & F4 & F5 & F6).
+    destruct (ct_addv_facts i l (gv_v g (gv_at i g)) false Hl Hb Hp) as (F1 & F2 & F3 & F4 & F5 & F6).
     split; [rewrite F1; unfold nnat; lia|]. split; [exact F2|]. split; [|split; [|split; [|lia]]].
     + intros j Hj. destruct (le_lt_dec (length (ct_vals l)) j) as [Hge|Hlt]; [rewrite !nth_overflow by (try rewrite F2; lia); reflexivity|].
       rewrite (F6 j ltac:(lia) Hlt). replace (j =? N.to_nat (ct_n l))%nat with false by lia. reflexivity.
@@ -104,16 +127,17 @@ Proof.
     + rewrite F5, Hfv. unfold pf_end. cbn [po pl].
       destruct ((ct_n l =? 0) || pf_empty (ct_lasthval l)); f_equal; lia.
   - rewrite gl_vals_cons2, gl_end_cons2.
-    assert (Eadd : ct_addvs l (gv_v g i :: gl_vals (i + nnat (length (gv_step g))) (g2 :: gs))
-                   = ct_addvs (ct_addv l (gv_v g i) true) (gl_vals (i + nnat (length (gv_step g))) (g2 :: gs))).
+    assert (Eadd : ct_addvs l (gv_v g (gv_at i g) :: gl_vals (i + nnat (length (gv_step g))) (g2 :: gs))
+                   = ct_addvs (ct_addv l (gv_v g (gv_at i g)) true) (gl_vals (i + nnat (length (gv_step g))) (g2 :: gs))).
     { destruct (gl_vals_cons (i + nnat (length (gv_step g))) g2 gs) as (v2 & vs2 & Ev). rewrite Ev. reflexivity. }
     cbv zeta. rewrite Eadd. clear Eadd.
-    destruct (ct_addv_facts i l (gv_v g i) true Hl Hb Hp) as (F1 & F2 & F3 & F4 & F5 & F6).
+    destruct (ct_addv_facts i l (gv_v g (gv_at i g)) true Hl Hb Hp) as (F1 & F2 & F3 & F4 & F5 & F6).
     set (i1 := i + nnat (length (gv_step g))).
-    assert (Hi1 : i + nnat (length (gv_x g)) <= i1) by (subst i1; unfold gv_step; rewrite !app_length; unfold nnat; lia).
-    pose proof (addv_CtI i l g i1 (conj Hgg (conj Hxne (conj Hc (conj He Hv)))) Hl Hi1) as Hl1.
-    set (l1 := ct_addv l (gv_v g i) true) in *.
+    assert (Hi1 : gv_at i g + nnat (length (gv_x g)) <= i1) by (subst i1; unfold gv_step, gv_at; rewrite !app_length; unfold nnat; lia).
+    pose proof (addv_CtI i l g i1 Hg0 Hl Hi1) as Hl1.
+    set (l1 := ct_addv l (gv_v g (gv_at i g)) true) in *.
     destruct (IH i1 l1 ltac:(discriminate) Hall' Hl1) as (G1 & G2 & G3 & G4 & G5 & G6).
+    assert (Hs2 : i1 <= gl_start i1 (g2 :: gs)) by (cbn [gl_start]; unfold gv_at; lia).
     split; [rewrite G1, F1; cbn [length]; unfold nnat; lia|]. split; [rewrite G2, F2; reflexivity|]. split; [|split; [|split; [|lia]]].
     + intros j Hj. rewrite G3 by (rewrite F1; lia).
       destruct (le_lt_dec (length (ct_vals l)) j) as [Hge|Hlt]; [rewrite !nth_overflow by (try rewrite F2; lia); reflexivity|].
@@ -124,8 +148,8 @@ Proof.
         apply G4; [cbn [length] in *; lia|rewrite F1, F2; lia].
     + rewrite G5, F1, F5, Hfv.
       replace (ct_n l + 1 =? 0) with false by lia. cbn [orb].
-      assert (Hne1 : pf_empty (if (ct_n l =? 0) || pf_empty (ct_lasthval l) then mkpf i (nnat (length (gv_x g)))
-                               else mkpf (po (ct_lasthval l)) (pf_end (mkpf i (nnat (length (gv_x g)))) - po (ct_lasthval l))) = false).
+      assert (Hne1 : pf_empty (if (ct_n l =? 0) || pf_empty (ct_lasthval l) then mkpf (gv_at i g) (nnat (length (gv_x g)))
+                               else mkpf (po (ct_lasthval l)) (pf_end (mkpf (gv_at i g) (nnat (length (gv_x g)))) - po (ct_lasthval l))) = false).
       { destruct Hl as (_ & _ & Hx). destruct ((ct_n l =? 0) || pf_empty (ct_lasthval l)); unfold pf_empty, pf_end in *; cbn [po pl]; lia. }
       rewrite Hne1.
       destruct ((ct_n l =? 0) || pf_empty (ct_lasthval l)); unfold pf_end; cbn [po pl]; f_equal; lia.
@@ -138,7 +162,7 @@ Theorem contact_general_list_spec gs (junk sp : list byte) x tail n : gs <> [] -
             = Done (gl_end i gs + nnat (length sp) + 2) EOk C /\
     ct_n C = nnat (length gs) /\
     (forall j, (j < length gs)%nat -> (j < n)%nat -> nth j (ct_vals C) pfrom0 = nth j vs pfrom0) /\
-    ct_lasthval C = mkpf i (gl_end i gs - i).
+    ct_lasthval C = mkpf (gl_start i gs) (gl_end i gs - gl_start i gs).
 Proof.
   intros Hne Hall Hsp Hx i vs. set (l0 := contacts_init (repeat pfrom0 n)).
   assert (Hl0 : CtI i l0).
@@ -159,11 +183,23 @@ Qed.
 Lemma run_parse_c (pre rest : list byte) i : i = nnat (length pre) -> run itc pre rest i 0 pfrom0 = parse_nameaddr HdrContact (rev pre ++ rest) (nnat (length (rev pre))) pfrom0.
 Proof. intros Hi. unfold parse_nameaddr. rewrite rev_length, <- Hi. apply run_as_parse. exact Hi. Qed.
 
-Definition gv_plain (D uri g : list byte) : gval :=
-  mkgval (bhead D uri) g (fun i0 => fD HdrContact (dname i0 D) i0 (i0 + nnat (length D) + 1) (nnat (length uri))).
-Lemma gv_plain_ok D uri g : disp D -> Forall uchar uri -> gp g -> gv_ok (gv_plain D uri g).
+Lemma nchar0_nonws c : nchar0 c -> is_ws c = false.
+Proof. unfold nchar0, ccls_of. destruct (is_ws c); [contradiction|reflexivity]. Qed.
+Lemma bhead_first D uri : disp D -> exists c X', bhead D uri = c :: X' /\ is_ws c = false.
 Proof.
-  intros HD Hu Hg. unfold gv_ok, gv_plain. cbn [gv_x gv_g gv_v].
+  intros HD. unfold bhead. destruct HD as [|n0 name H0 _|n0 name w H0 _ _|n0 name w c T H0 _ _ _ _|q T _ _].
+  - exists 60. eexists. split; reflexivity.
+  - exists n0. eexists. split; [reflexivity|apply nchar0_nonws; exact H0].
+  - exists n0. eexists. split; [reflexivity|apply nchar0_nonws; exact H0].
+  - exists n0. eexists. split; [reflexivity|apply nchar0_nonws; exact H0].
+  - exists 34. eexists. split; reflexivity.
+Qed.
+Definition gv_plain (l D uri g : list byte) : gval :=
+  mkgval l (bhead D uri) g (fun i0 => fD HdrContact (dname i0 D) i0 (i0 + nnat (length D) + 1) (nnat (length uri))).
+Lemma gv_plain_ok l D uri g : gp l -> disp D -> Forall uchar uri -> gp g -> gv_ok (gv_plain l D uri g).
+Proof.
+  intros Hl HD Hu Hg. unfold gv_ok, gv_plain. cbn [gv_l gv_x gv_g gv_v].
+  split; [exact Hl|]. split; [apply bhead_first; exact HD|].
   split; [exact Hg|]. split; [unfold bhead; destruct D; discriminate|]. split; [|split].
   - intros pre y i Hi. rewrite (run_parse_c pre _ i Hi).
     rewrite (nameaddr_display_uri_comma HdrContact (rev pre) D uri g y eq_refl HD Hu Hg). rewrite rev_length, <- Hi.
@@ -179,14 +215,15 @@ Definition gvp_v (D uri g0 : list byte) (L : list pit) (t : pit) (i0 : N) : pfro
   let us := i0 + nnat (length D) + 1 in let lu := nnat (length uri) in
   let i := us + lu + 1 + nnat (length g0) + 1 in let j := i + nnat (length (its_bytes L)) in
   finW HdrContact (t_d j t) (t_apply false j t (its_state false i L (bD (dname i0 D) i0 us lu))).
-Definition gv_params (D uri g0 : list byte) (L : list pit) (t : pit) : gval := mkgval (gvp_x D uri g0 L t) (t_g4 t) (gvp_v D uri g0 L t).
-Lemma gv_params_ok D uri g0 L t : disp D -> Forall uchar uri -> gp g0 -> Forall t_ok L -> t_ok t -> gv_ok (gv_params D uri g0 L t).
+Definition gv_params (l D uri g0 : list byte) (L : list pit) (t : pit) : gval := mkgval l (gvp_x D uri g0 L t) (t_g4 t) (gvp_v D uri g0 L t).
+Lemma gv_params_ok l D uri g0 L t : gp l -> disp D -> Forall uchar uri -> gp g0 -> Forall t_ok L -> t_ok t -> gv_ok (gv_params l D uri g0 L t).
 Proof.
-  intros HD Hu Hg HL Ht. unfold gv_ok, gv_params. cbn [gv_x gv_g gv_v].
+  intros Hl HD Hu Hg HL Ht. unfold gv_ok, gv_params. cbn [gv_l gv_x gv_g gv_v].
   assert (Hg4 : gp (t_g4 t)) by (destruct Ht as (_ & _ & _ & H); exact H).
   assert (Hlen : forall i0, let us := i0 + nnat (length D) + 1 in let lu := nnat (length uri) in
             let i := us + lu + 1 + nnat (length g0) + 1 in let j := i + nnat (length (its_bytes L)) in t_d j t = i0 + nnat (length (gvp_x D uri g0 L t))).
   { intros i0 us lu i j. subst j i us lu. unfold t_d, gvp_x, bhead. repeat (rewrite app_length; cbn [length]). unfold nnat. lia. }
+  split; [exact Hl|]. split; [unfold gvp_x; destruct (bhead_first D uri HD) as (c & X' & -> & Hc); exists c; eexists; split; [reflexivity|exact Hc]|].
   split; [exact Hg4|]. split; [unfold gvp_x, bhead; destruct D; discriminate|]. split; [|split].
   - intros pre y i Hi. rewrite (run_parse_c pre _ i Hi). unfold gvp_x. repeat (rewrite <- ?app_assoc; cbn [app]).
     pose proof (nameaddr_display_params_comma HdrContact (rev pre) D uri g0 L t y eq_refl HD Hu Hg HL Ht) as T. cbv zeta in T.
@@ -204,10 +241,11 @@ Proof.
 Qed.
 
 (* bare URIs *)
-Definition gv_bare (n0 : byte) (name g : list byte) : gval := mkgval (n0 :: name) g (fun i0 => fB HdrContact i0 (nnat (length (n0 :: name)))).
-Lemma gv_bare_ok n0 name g : nchar0 n0 -> Forall nchar name -> gp g -> gv_ok (gv_bare n0 name g).
+Definition gv_bare (l : list byte) (n0 : byte) (name g : list byte) : gval := mkgval l (n0 :: name) g (fun i0 => fB HdrContact i0 (nnat (length (n0 :: name)))).
+Lemma gv_bare_ok l n0 name g : gp l -> nchar0 n0 -> Forall nchar name -> gp g -> gv_ok (gv_bare l n0 name g).
 Proof.
-  intros Hn0 Hname Hg. unfold gv_ok, gv_bare. cbn [gv_x gv_g gv_v].
+  intros Hl Hn0 Hname Hg. unfold gv_ok, gv_bare. cbn [gv_l gv_x gv_g gv_v].
+  split; [exact Hl|]. split; [exists n0, name; split; [reflexivity|apply nchar0_nonws; exact Hn0]|].
   split; [exact Hg|]. split; [discriminate|]. split; [|split].
   - intros pre y i Hi. rewrite (run_parse_c pre _ i Hi).
     rewrite (nameaddr_bare_comma HdrContact (rev pre) n0 name g y eq_refl Hn0 Hname Hg). rewrite rev_length, <- Hi. reflexivity.
@@ -219,14 +257,15 @@ Definition gvb_x (n0 : byte) (name g0 : list byte) (L : list pit) (t : pit) : li
 Definition gvb_v (n0 : byte) (name g0 : list byte) (L : list pit) (t : pit) (i0 : N) : pfrom :=
   let i := i0 + nnat (length (headB n0 name g0)) in let j := i + nnat (length (its_bytes L)) in
   finW HdrContact (t_d j t) (t_apply true j t (its_state true i L (bB i0 (nnat (length (n0 :: name))) g0))).
-Definition gv_bare_params (n0 : byte) (name g0 : list byte) (L : list pit) (t : pit) : gval := mkgval (gvb_x n0 name g0 L t) (t_g4 t) (gvb_v n0 name g0 L t).
-Lemma gv_bare_params_ok n0 name g0 L t : nchar0 n0 -> Forall nchar name -> gp g0 -> Forall t_ok L -> t_ok t -> gv_ok (gv_bare_params n0 name g0 L t).
+Definition gv_bare_params (l : list byte) (n0 : byte) (name g0 : list byte) (L : list pit) (t : pit) : gval := mkgval l (gvb_x n0 name g0 L t) (t_g4 t) (gvb_v n0 name g0 L t).
+Lemma gv_bare_params_ok l n0 name g0 L t : gp l -> nchar0 n0 -> Forall nchar name -> gp g0 -> Forall t_ok L -> t_ok t -> gv_ok (gv_bare_params l n0 name g0 L t).
 Proof.
-  intros Hn0 Hname Hg HL Ht. unfold gv_ok, gv_bare_params. cbn [gv_x gv_g gv_v].
+  intros Hl Hn0 Hname Hg HL Ht. unfold gv_ok, gv_bare_params. cbn [gv_l gv_x gv_g gv_v].
   assert (Hg4 : gp (t_g4 t)) by (destruct Ht as (_ & _ & _ & H); exact H).
   assert (Hlen : forall i0, let i := i0 + nnat (length (headB n0 name g0)) in let j := i + nnat (length (its_bytes L)) in
             t_d j t = i0 + nnat (length (gvb_x n0 name g0 L t))).
   { intros i0 i j. subst j i. unfold t_d, gvb_x. repeat (rewrite app_length; cbn [length]). unfold nnat. lia. }
+  split; [exact Hl|]. split; [unfold gvb_x, headB; exists n0; eexists; split; [cbn [app]; reflexivity|apply nchar0_nonws; exact Hn0]|].
   split; [exact Hg4|]. split; [unfold gvb_x, headB; discriminate|]. split; [|split].
   - intros pre y i Hi. rewrite (run_parse_c pre _ i Hi). unfold gvb_x. repeat (rewrite <- ?app_assoc).
     pose proof (nameaddr_bare_params_comma HdrContact (rev pre) n0 name g0 L t y eq_refl Hn0 Hname Hg HL Ht) as T. cbv zeta in T.
